@@ -61,7 +61,10 @@ enum Item {
     Signal(u64, bool),
     Fail { target: Tid, kind: String, revert: bool, io: Option<(String, u32)> },
     Prefix { target: Tid, len: usize },
-    Flip { target: Tid, bit: usize, edit: bool },
+    /// edit: 0 = tree unchanged, 1 = an own input rewritten, 2 = a declared output altered
+    Flip { target: Tid, bit: usize, edit: u8 },
+    /// one byte of the record set to zero (enum / Option tags, counts), a declared output altered
+    ZeroByte { target: Tid, idx: usize },
     Garbage { target: Tid, seed: u64 },
     Foreign { target: Tid, from: Tid },
 }
@@ -82,7 +85,8 @@ impl Item {
                 if *revert { "+revert" } else { "" }
             ),
             Item::Prefix { target, len } => format!("prefix:{}:{}", sc.sim_id(target.0, &target.1), len),
-            Item::Flip { target, bit, edit } => format!("flip:{}:{}:{}", sc.sim_id(target.0, &target.1), bit, if *edit { "edited" } else { "same" }),
+            Item::Flip { target, bit, edit } => format!("flip:{}:{}:{}", sc.sim_id(target.0, &target.1), bit, ["same", "edited", "output-altered"][*edit as usize]),
+            Item::ZeroByte { target, idx } => format!("zero:{}:{}", sc.sim_id(target.0, &target.1), idx),
             Item::Garbage { target, seed } => format!("garbage:{}:{}", sc.sim_id(target.0, &target.1), seed),
             Item::Foreign { target, from } => format!("foreign:{}:{}", sc.sim_id(target.0, &target.1), sc.sim_id(from.0, &from.1)),
         }
@@ -110,7 +114,7 @@ impl Property for C05 {
         }
     }
     fn rule(&self) -> &'static str {
-        "one case = a small generated project (1-4 build targets with inputs, X.output chains) + an optional priming invocation and edits + one main invocation under a seeded schedule. The main invocation is first run to completion (R0: N scheduling decisions, final bytes of every record), then ENUMERATED: zinoma killed (_exit) at every decision index 1..N; SIGINT at every decision index; each script that ran made to exit non-zero / die by signal / fail to spawn; each record replaced by every strict prefix (torn write; quick tier: 32 evenly spaced lengths incl. 0 and len-1), by single-bit flips (quick: 64 positions, with and without a change to a declared input), by garbage and by another target's record; and, when the history has a priming run, the interruptions again (every 5th index) followed by a REVERT of the edited inputs to what the last successful record saw, plus each failing script combined with an I/O error (EIO) on zinoma's own n-th stat / unlink / open (n = 1..14). After each, a fault-free recovery invocation runs. Oracle: a target R0 had to run whose on-disk record is not byte-identical to R0's final record is started again, never skipped; recovery never panics/aborts/errs; a target whose declared input changed is never skipped whatever the record bytes; after a revert, a target whose script had started and not completed in the interrupted run is started again. evaluations = simulated invocations; distinct_nontrivial = distinct (interrupted-run order hash, fault item) pairs in which the fault hit after the first script start"
+        "one case = a small generated project (1-4 build targets with inputs, X.output chains) + an optional priming invocation and edits + one main invocation under a seeded schedule. The main invocation is first run to completion (R0: N scheduling decisions, final bytes of every record), then ENUMERATED: zinoma killed (_exit) at every decision index 1..N; SIGINT at every decision index; each script that ran made to exit non-zero / die by signal / fail to spawn; each record replaced by every strict prefix (torn write; quick tier: 32 evenly spaced lengths incl. 0 and len-1), by single-bit flips (quick: ~100 positions; tree unchanged / an own input rewritten / a declared output altered), by every byte zeroed in turn with a declared output altered (quick: one record per case), by garbage and by another target's record; and, when the history has a priming run, the interruptions again (every 5th index) followed by a REVERT of the edited inputs to what the last successful record saw, plus each failing script combined with an I/O error (EIO) on zinoma's own n-th stat / unlink / open (n = 1..14). After each, a fault-free recovery invocation runs. Oracle: a target R0 had to run whose on-disk record is not byte-identical to R0's final record is started again, never skipped; recovery never panics/aborts/errs; a target whose declared input changed is never skipped whatever the record bytes; after a revert, a target whose script had started and not completed in the interrupted run is started again. evaluations = simulated invocations; distinct_nontrivial = distinct (interrupted-run order hash, fault item) pairs in which the fault hit after the first script start"
     }
     fn assumptions(&self) -> Vec<&'static str> {
         vec![
@@ -294,6 +298,7 @@ impl Property for C05 {
                 }
             }
         }
+        let mut zero_budget = 1usize;
         for (t, bytes) in &finals {
             if !started.contains(t) {
                 continue;
@@ -335,7 +340,17 @@ impl Property for C05 {
                 v.into_iter().filter(|b| *b < nbits).collect()
             };
             for (i, b) in bits.iter().enumerate() {
-                items.push(Item::Flip { target: t.clone(), bit: *b, edit: i % 4 == 3 });
+                items.push(Item::Flip { target: t.clone(), bit: *b, edit: [0u8, 2, 0, 1][i % 4] });
+            }
+            if thorough || zero_budget > 0 {
+                // every byte zeroed in turn, with a declared output altered: whatever the record
+                // then says, the target's resources changed
+                zero_budget = zero_budget.saturating_sub(1);
+                for idx in 0..len {
+                    if bytes[idx] != 0 {
+                        items.push(Item::ZeroByte { target: t.clone(), idx });
+                    }
+                }
             }
             items.push(Item::Garbage { target: t.clone(), seed: len as u64 * 7919 + 1 });
             items.push(Item::Garbage { target: t.clone(), seed: len as u64 * 104729 + 2 });
@@ -417,7 +432,23 @@ impl Property for C05 {
                     let mut b = finals[target].clone();
                     b[bit / 8] ^= 1 << (bit % 8);
                     let _ = std::fs::write(&p, &b);
-                    edited_ok = *edit && edit_an_input(sc, &mut case, target);
+                    edited_ok = match *edit {
+                        1 => edit_an_input(sc, &mut case, target),
+                        2 => alter_an_output(sc, &mut case, target),
+                        _ => false,
+                    };
+                    interrupted = None;
+                }
+                Item::ZeroByte { target, idx } => {
+                    if restore(&base2, root).is_err() {
+                        break;
+                    }
+                    case.clock = clock_after_r0;
+                    let p = state_file(sc, &case, target);
+                    let mut b = finals[target].clone();
+                    b[*idx] = 0;
+                    let _ = std::fs::write(&p, &b);
+                    edited_ok = alter_an_output(sc, &mut case, target);
                     interrupted = None;
                 }
                 Item::Garbage { target, seed } => {
@@ -447,11 +478,12 @@ impl Property for C05 {
             let _ = in_before;
             let r2 = run_invocation(sc, &mut case, &recovery, "r2");
             stats.absorb_run(&recovery, &r2, false);
-            if matches!(it, Item::Prefix { .. } | Item::Flip { .. } | Item::Garbage { .. } | Item::Foreign { .. }) {
+            if matches!(it, Item::Prefix { .. } | Item::Flip { .. } | Item::ZeroByte { .. } | Item::Garbage { .. } | Item::Foreign { .. }) {
                 stats.nontrivial.insert(r2.order_hash ^ simrt::stamp::fnv(simrt::stamp::FNV_INIT, tag.as_bytes()));
                 *stats.faults.entry(match it {
                     Item::Prefix { .. } => "torn-record-prefix".to_string(),
                     Item::Flip { .. } => "record-bit-flip".to_string(),
+                    Item::ZeroByte { .. } => "record-byte-zeroed".to_string(),
                     Item::Garbage { .. } => "record-garbage".to_string(),
                     _ => "record-foreign".to_string(),
                 }).or_insert(0) += 1;
@@ -500,26 +532,18 @@ impl Property for C05 {
                     Item::Crash(_, true) | Item::Signal(_, true) | Item::Fail { revert: true, .. } => {
                         let r1 = interrupted.as_ref();
                         let spawned = r1.map(|r| !r.insts(&sc.sim_id(t.0, &t.1)).is_empty()).unwrap_or(false);
-                        let done = r1.map(|r1| {
-                            r1.logs().any(|e| e.rest == format!("INFO {} - Build success (took: _ms)", disp))
-                                && !r1.logs().any(|e| e.rest.starts_with(&format!("WARN {} - Failed to", disp)))
-                                && on_disk[t].is_some()
-                        }).unwrap_or(false);
+                        let done = r1.map(|r1| completed_in(r1, sc, t, &disp) && on_disk[t].is_some()).unwrap_or(false);
                         spawned && !done
                     }
                     // after a signal or failure the run diverges from R0 (other completion order,
                     // other logical mtimes): "done" = zinoma reported the build's success and
                     // stored its state in that run
                     Item::Signal(_, false) | Item::Fail { revert: false, .. } => {
-                        let done = interrupted.as_ref().map(|r1| {
-                            r1.logs().any(|e| e.rest == format!("INFO {} - Build success (took: _ms)", disp))
-                                && !r1.logs().any(|e| e.rest.starts_with(&format!("WARN {} - Failed to", disp)))
-                                && on_disk[t].is_some()
-                        }).unwrap_or(false);
+                        let done = interrupted.as_ref().map(|r1| completed_in(r1, sc, t, &disp) && on_disk[t].is_some()).unwrap_or(false);
                         started.contains(t) && !done
                     }
                     Item::Prefix { target, .. } | Item::Garbage { target, .. } => target == t,
-                    Item::Flip { target, .. } => target == t && edited_ok,
+                    Item::Flip { target, .. } | Item::ZeroByte { target, .. } => target == t && edited_ok,
                     Item::Foreign { target, from } => target == t && finals.get(from) != finals.get(t) && !foreign_matches(sc, &case, t, from),
                 };
                 if must_run {
@@ -532,7 +556,8 @@ impl Property for C05 {
                             format!("its record on disk after the interruption is {}", state)
                         }
                         Item::Prefix { len, .. } => format!("its record is a {}-byte prefix of the {}-byte record (torn write)", len, finals[t].len()),
-                        Item::Flip { .. } => "its record has a flipped bit and one of its declared inputs changed".to_string(),
+                        Item::Flip { .. } => "its record has a flipped bit and one of its declared inputs or outputs changed".to_string(),
+                        Item::ZeroByte { idx, .. } => format!("byte {} of its record is zeroed and one of its declared outputs was altered", idx),
                         Item::Garbage { .. } => "its record is garbage".to_string(),
                         Item::Foreign { from, .. } => format!("its record file holds the record of {}", sc.display(from.0, &from.1)),
                     };
@@ -553,6 +578,16 @@ impl Property for C05 {
         cleanup(());
         verdict
     }
+}
+
+/// Did `t` complete successfully in run `r`? Ground truth first: the exit status of its script
+/// as the virtual process reported it (zinoma's own "Build success" line is not trusted alone).
+fn completed_in(r: &RunResult, sc: &Scenario, t: &Tid, disp: &str) -> bool {
+    let insts = r.insts(&sc.sim_id(t.0, &t.1));
+    let exited_ok = insts.last().map(|p| p.exit.as_ref().map(|e| e.1 == 0).unwrap_or(false)).unwrap_or(false);
+    exited_ok
+        && r.logs().any(|e| e.rest == format!("INFO {} - Build success (took: _ms)", disp))
+        && !r.logs().any(|e| e.rest.starts_with(&format!("WARN {} - Failed to", disp)))
 }
 
 /// Would the foreign record legitimately equal this target's current state? (two targets with
@@ -642,4 +677,23 @@ fn revert_inputs(sc: &Scenario, case: &mut Case, primed: &Path, targets: &BTreeS
             }
         }
     }
+}
+
+/// Alter (or delete) one declared output file of the target.
+fn alter_an_output(sc: &Scenario, case: &mut Case, t: &Tid) -> bool {
+    let (_, outputs) = model::declared(sc, &case.root, t);
+    for (res, dir) in &outputs {
+        let files = model::denote(res, dir);
+        if let Some(f) = files.iter().next() {
+            if files.len() % 2 == 0 {
+                let _ = std::fs::remove_file(f);
+            } else {
+                let _ = std::fs::write(f, b"output altered after the record was damaged\n");
+                case.clock += 1;
+                simrt::vfs::set_mtime(f, case.clock);
+            }
+            return true;
+        }
+    }
+    false
 }
